@@ -365,8 +365,10 @@ def run(prog, check):
             containers.add(n.targets[0].attr)
     parse_sources = {'Parser', 'EquationString'} | set(sources)
     n6 = 0
+    from ..inline import judged_at_callers
+    at_callers = judged_at_callers(prog, list(solver_cls.methods.values()))
     for f_raw in solver_cls.methods.values():
-        if f_raw.name == '__init__':
+        if f_raw.name == '__init__' or f_raw.key in at_callers:
             continue
         fl = flatten(prog, f_raw)
         aliases = {}
